@@ -6,6 +6,7 @@ import (
 	"net"
 	"sync"
 
+	"github.com/plgd-dev/go-coap/v3/pkg/verifhook"
 	"go.uber.org/atomic"
 )
 
@@ -78,6 +79,8 @@ func (c *Conn) WriteWithContext(ctx context.Context, data []byte) error {
 		return err
 	}
 	written := 0
+	verifhook.GateAcquire(c)
+	defer verifhook.GateRelease(c)
 	c.lock.Lock()
 	defer c.lock.Unlock()
 	for written < len(data) {
